@@ -12,7 +12,7 @@ import (
 )
 
 func init() {
-	register("C01", "Structural clauses behind sync convergence, decided on every path of the stat constructor and the disk writer: every exported field of types.Stat (set taken from go/types) is written by the constructor from its truthful lstat-based source; rewriteMetadata applies owner, mode (symlinks excepted), times and xattrs from the stat on every success path, owner before mode and times last; metadata is applied (checked) before an entry becomes visible by rename and after every creation; creation arguments come from the stat; the mtime is re-applied after asynchronous content; directory mtimes are recorded from the stat and fixed after all writers finished; merge mode never produces deletes; no write error is dropped or survived outside a reasoned table. The diff loop cannot end while either walk is still open. Does not decide equality of the two trees, file bytes or hard-link groups at run time.", runC01)
+	register("C01", "Structural clauses behind sync convergence, decided on every path of the stat constructor and the disk writer: every exported field of types.Stat (set taken from go/types) is written by the constructor from its truthful lstat-based source; rewriteMetadata applies owner, mode (symlinks excepted), times and xattrs from the stat on every success path, owner before mode and times last; metadata is applied (checked) before an entry becomes visible by rename and after every creation; creation arguments come from the stat; the mtime is re-applied after asynchronous content; directory mtimes are recorded from the stat and fixed after all writers finished; merge mode never produces deletes; no write error is dropped or survived outside a reasoned table, nor is the error of a disk-writer helper that makes such writes (rewriteMetadata, chtimes, processChange, the special-file and rename helpers) by its caller. The diff loop cannot end while either walk is still open. The os.FileInfo view the writer dispatches on (StatInfo) projects the stat's own fields; xattrs listed are xattrs recorded (shared with C09). Does not decide equality of the two trees, file bytes or hard-link groups at run time.", runC01)
 }
 
 func runC01(c *Ctx) {
@@ -43,6 +43,12 @@ func runC01(c *Ctx) {
 	}
 	// the diff ends only when both walks are exhausted (shared with C02)
 	r02_9(c, "R01.15")
+	// the disk writer dispatches on the entry's os.FileInfo view (shared with C17)
+	r17_9(c, "R01.16")
+	if c.Unix() {
+		// xattrs: what listxattr names is what the stat carries (shared with C09)
+		r09_11(c, "R01.17")
+	}
 }
 
 // statSources: required provenance of each Stat field in the constructor.
@@ -823,6 +829,42 @@ func r01_8(c *Ctx, rule string) {
 		c.ObErrChecked(rule, call)
 	}
 	c.R.Floor(rule, "mutating filesystem call sites with an error result", n, 14)
+	// ... and the error of a helper of the disk writer that makes such calls
+	// is not dropped or survived by its caller either (a caller that goes on
+	// to `return nil` reports a directory whose metadata could not be set as
+	// written)
+	inSet := map[*ssa.Function]bool{}
+	for _, f := range fns {
+		inSet[f] = true
+	}
+	nh := 0
+	for _, fn := range fns {
+		for _, call := range eng.Calls(fn) {
+			f := call.Common().StaticCallee()
+			if f == nil || !inSet[f] || f == fn {
+				continue
+			}
+			if _, _, has := c.errValueOf(call); !has {
+				continue
+			}
+			if strings.HasSuffix(c.P.CalleeName(call), ").Close") {
+				continue // closes have their own clauses (file-close-checked, R01.9)
+			}
+			if _, isGo := call.(*ssa.Go); isGo {
+				continue
+			}
+			if _, isDefer := call.(*ssa.Defer); isDefer {
+				continue
+			}
+			nh++
+			if why, ok := tabled(c, r018Exceptions, call); ok {
+				c.R.OK(rule, c.siteName(call)+"/tabled", c.pos(call), "tabled: "+why)
+				continue
+			}
+			c.ObErrChecked(rule, call)
+		}
+	}
+	c.R.Floor(rule, "calls of error-returning disk-writer helpers", nh, 4)
 	// file.Close() of the freshly created file is checked on the success path
 	hc := c.P.Fn("fsutil.(*DiskWriter).HandleChange")
 	if hc != nil {
